@@ -88,9 +88,9 @@ Proof. vm_compute. repeat split; reflexivity. Qed.
 
 (* the same on the pathbadger model *)
 Definition h_pgc : list pop :=
-  [PCommit 0 1 2 None [(1, 1); (2, 1)] [((0, 1), 1); ((0, 2), 2)]; PFinalize 0 [2];
-   PCommit 1 1 3 (Some (0, 2)) [(3, 1)] [((1, 1), 4); ((0, 1), 1); ((1, 2), 5); ((0, 2), 2)]; PFinalize 1 [3];
-   PCommit 2 1 4 (Some (1, 3)) [(2, 0)] [((2, 1), 6); ((0, 1), 1)]; PFinalize 2 [4];
+  [PCommit 0 1 2 None [(1, 1); (2, 1)] [((0, 1), 1); ((0, 2), 2)] []; PFinalize 0 [2];
+   PCommit 1 1 3 (Some (0, 2)) [(3, 1)] [((1, 1), 4); ((0, 1), 1); ((1, 2), 5); ((0, 2), 2)] []; PFinalize 1 [3];
+   PCommit 2 1 4 (Some (1, 3)) [(2, 0)] [((2, 1), 6); ((0, 1), 1)] [(1, 1); (1, 2); (0, 2)]; PFinalize 2 [4];
    PPrune 0].
 
 Lemma pathbadger_gc_discard_too_high_refuted_l :
